@@ -14,9 +14,9 @@ trap cleanup EXIT
 cd $WT
 DEMO=$(ls $SRC/*_test.go | head -1)
 if ! git apply --check $SRC/patch.diff 2>/dev/null; then
-  if git apply --3way $SRC/patch.diff >/dev/null 2>&1; then echo "patch applied with 3way"; git diff HEAD > $WT/.rebased.diff; git reset -q; else echo "RESULT $NAME: patch does not apply to HEAD"; exit 1; fi
+  if git apply --3way $SRC/patch.diff >/dev/null 2>&1; then echo "patch applied with 3way"; git add -A; git diff --cached HEAD > $WT/.rebased.diff; git reset -q; else echo "RESULT $NAME: patch does not apply to HEAD"; exit 1; fi
 else
-  git apply $SRC/patch.diff; git diff HEAD > $WT/.rebased.diff
+  git apply $SRC/patch.diff; git add -A; git diff --cached HEAD > $WT/.rebased.diff; git reset -q
 fi
 go build ./... || { echo "RESULT $NAME: does not build"; exit 1; }
 SUITE=$(go test -vet=off -count=1 ./... 2>&1 | grep -v "no test files")
